@@ -439,12 +439,11 @@ def r7(ck, F):
                 ebb, et = enters[0]
                 ibb, it = inner_calls[0]
                 gl = et["dest"]["l"]
-                drops = [i for i, blk in enumerate(b.blocks) if blk["term"]["k"] == "drop" and blk["term"]["place"] == {"l": gl}]
-                ra = b.reachable(it["ret"], avoid=drops) if it.get("ret") is not None else set()
+                drops = drop_blocks(b, gl)
                 if not b.dominates(ebb, ibb):
                     ok, msg = False, "the inner call is not dominated by Span::enter"
-                elif any(e in ra for e in b.exits()):
-                    ok, msg = False, "the Entered guard is not dropped after the inner call on every returning path"
+                elif dropped_on_all_exits(b, ibb, drops):
+                    ok, msg = False, "the Entered guard is not dropped after the inner call on every returning and unwinding path: " + dropped_on_all_exits(b, ibb, drops)[0]
                 elif any(b.dominates(d, ibb) for d in drops if not b.blocks[d].get("cleanup")):
                     ok, msg = False, "the Entered guard is dropped before the inner call"
                 else:
